@@ -18,8 +18,10 @@ import (
 	"strconv"
 	"strings"
 	"sync"
+	"sync/atomic"
 	"syscall"
 	"time"
+	"unsafe"
 )
 
 // Witness is a replayable description of one violating case.
@@ -60,6 +62,7 @@ type Reporter struct {
 	incon          []string
 	journal        *Journal
 	out            *os.File
+	part           string
 	setsNew        map[string][]string
 	violFlushed    map[string]int64
 	samplesFlushed int
@@ -118,6 +121,12 @@ func (r *Reporter) Violation(w *Witness) {
 	defer r.mu.Unlock()
 	w.Property = r.Property
 	w.Seed = r.Seed
+	if r.part != "" {
+		if w.Focus == nil {
+			w.Focus = map[string]string{}
+		}
+		w.Focus["part"] = r.part
+	}
 	r.violN[w.Sig]++
 	if _, ok := r.viols[w.Sig]; !ok {
 		r.viols[w.Sig] = w
@@ -150,6 +159,9 @@ func (r *Reporter) Inconclusive(note string) {
 
 // Mark journals the case about to be executed.
 func (r *Reporter) SetJournal(j *Journal) { r.journal = j }
+
+// SetPart names the part of a composite property that is executing.
+func (r *Reporter) SetPart(p string) { r.part = p }
 
 func (r *Reporter) Mark(unit, a, b, c int) {
 	if r.journal != nil {
@@ -262,6 +274,34 @@ func ReadJournal(path string) (JournalState, bool) {
 		B:    int(int64(binary.LittleEndian.Uint64(b[24:32]))),
 		C:    int(int64(binary.LittleEndian.Uint64(b[32:40]))),
 	}, true
+}
+
+// Counter is a shared unit counter (memory mapped, atomically incremented by
+// all workers) that gives dynamic load balancing across worker processes.
+type Counter struct{ mem []byte }
+
+func OpenCounter(path string) (*Counter, error) {
+	f, err := os.OpenFile(path, os.O_RDWR|os.O_CREATE, 0o644)
+	if err != nil {
+		return nil, err
+	}
+	defer f.Close()
+	if st, _ := f.Stat(); st.Size() < 8 {
+		if err := f.Truncate(8); err != nil {
+			return nil, err
+		}
+	}
+	mem, err := syscall.Mmap(int(f.Fd()), 0, 8, syscall.PROT_READ|syscall.PROT_WRITE, syscall.MAP_SHARED)
+	if err != nil {
+		return nil, err
+	}
+	return &Counter{mem: mem}, nil
+}
+
+// Next claims the next unit index.
+func (c *Counter) Next() int {
+	p := (*int64)(unsafe.Pointer(&c.mem[0]))
+	return int(atomic.AddInt64(p, 1) - 1)
 }
 
 // ---------------------------------------------------------------- known findings
@@ -439,7 +479,7 @@ func runWorker(cfg Config, exe, outDir string, of int, ws *workerState, merged *
 	jfile := filepath.Join(outDir, tag+".journal")
 	logFile := filepath.Join(outDir, tag+".log")
 	args := cfg.WorkerArgs(ws.shard, of, ws.from)
-	args = append(args, "-out", outFile, "-journal", jfile)
+	args = append(args, "-out", outFile, "-journal", jfile, "-counter", filepath.Join(outDir, "counter"))
 	cmd := exec.Command(exe, args...)
 	lf, _ := os.Create(logFile)
 	cmd.Stdout = lf
